@@ -192,13 +192,17 @@ def gen_objects(rng, mode, hostile, chronological, tshift=0, integer_times=False
         elif kind == "n":
             # a spinner's type may carry combo-offset bits as well (they mean nothing for the spinner; what they do to the NEXT
             # object is the question: seed C02-k)
-            o = f"256,192,{tt},{8 | (nc if rng.random() < 0.25 else (nc & 4))},{snd},{t + tshift + rng.choice([500, 2000, -10])},{extra}"
+            o = f"256,192,{tt},{8 | (nc if rng.random() < 0.25 else (nc & 4))},{snd},{t + tshift + rng.choice([500, 2000, -10] if integer_times else [500, 2000, -10, 0.25, 0.34, 1000.07])},{extra}"
         else:
             o = f"{x},192,{tt},128,{snd},{t + tshift + rng.choice([300, 1000, 0])}:{extra}"
         if rng.random() < hostile:
             o = corrupt_line(rng, o)
         objs.append(o)
         t += rng.choice([0, 100, 250, 1000, 3000, 1 if integer_times else 0.5])
+        if not integer_times and rng.random() < 0.08:
+            # decimal fractions that are not dyadic (0.09, 0.34, 1000.1): the sums and differences of such times round
+            # (findings F25 / F26 live here: a spinner's end time is written as start + duration)
+            t = round(t + rng.choice([0.09, 0.25, 0.1, 0.07, 0.33]), 2)
     if not chronological:
         rng.shuffle(objs)
         if rng.random() < 0.15:
